@@ -9,9 +9,12 @@ Definition TCR := 0xffff80. Definition TCSR := 0xffff82. Definition TCNT := 0xff
 
 (* byte stores to TCR, TCORA, TCORB and TCNT are within the claim (TCSR writes are not) *)
 Definition timer_reg (a : Z) : bool := (a =? TCR) || (a =? 0xffff84) || (a =? 0xffff86) || (a =? TCNT).
-Definition timer_data_ok (a : Z) : bool := run_data_ok a || timer_reg a.
+Definition timer_data_ok (a : Z) : bool := run_data_ok a || timer_reg a || (a =? TCSR).
 Definition is_timer_store (i : insn) (s : cpu) : bool :=
   match i with IMovStore SB _ e => timer_reg (ea_addr SB s e) | _ => false end.
+(* byte loads from the timer registers (TCSR too): the value is the one the reference timer left after the previous instruction *)
+Definition is_timer_load (i : insn) (s : cpu) : bool :=
+  match i with IMovLoad SB e _ => timer_reg (ea_addr SB s e) || (ea_addr SB s e =? TCSR) | _ => false end.
 Definition is_tcr_store (i : insn) (s : cpu) : bool :=
   match i with IMovStore SB _ e => ea_addr SB s e =? TCR | _ => false end.
 
@@ -39,7 +42,7 @@ Fixpoint ref_run_t (fuel : nat) (s : cpu) (sync : Z) (t : tmr) (q : list Z) : op
         match ref_decode s with
         | Some (IUnimplemented, len) => if code_ok s len then Some None else None
         | Some (i, len) =>
-          if exec_dom timer_data_ok i len s && (negb (touches_timer i s) || is_timer_store i s) then
+          if exec_dom timer_data_ok i len s && (negb (touches_timer i s) || is_timer_store i s || is_timer_load i s) then
             match sem_ref i len s with Some s' => Some (Some (s', charge_ref i len s, is_tcr_store i s)) | None => None end
           else None
         | None => None
@@ -55,7 +58,7 @@ Fixpoint ref_run_t (fuel : nat) (s : cpu) (sync : Z) (t : tmr) (q : list Z) : op
       let s3 := if (2000000 <=? sync1) && sock s2 then set_bus (bset_msgs (b_msgs (cbus s2) ++ [MsgSync total]) (cbus s2)) s2 else s2 in
       let sync2 := if 2000000 <=? sync1 then sync1 - 2000000 else sync1 in
       (* the timer sees the same states *)
-      match (if wrote_tcr then match mem8 s3 TCR with Some v => if v mod 8 <=? 3 then Some (write_tcr_ref t v) else None | None => None end else Some t) with
+      match (if wrote_tcr then match mem8 s3 TCR with Some v => Some (write_tcr_ref t v) | None => None end else Some t) with
       | None => None
       | Some t1 =>
         match tmr_of s3 t1 with
